@@ -58,15 +58,24 @@ pub fn scenarios(thorough: bool) -> Vec<Scenario> {
     mv.per_denom = 1;
     mv.max_txs_per_block = 3;
     v.push(sc("custom02-liquidity-tokens-moved-and-claimed-twice", NetID::Custom02, 0, mv.clone(), if thorough { 7 } else { 6 }));
+    // the same from a state in which the wallet holds *all* the liquidity of a pool of its own (a second copy of its tokens
+    // then exceeds the pool's record at once)
+    let mut own = sc("custom02-own-pool-tokens-moved-and-claimed-twice", NetID::Custom02, 0, mv.clone(), if thorough { 5 } else { 4 });
+    own.setup_labels = vec!["open", "mint(", "seal(None)", "open", "deposit[MEL/C", "seal(None)"];
+    v.push(own);
     // with fees, hostile members (a transfer that pays too little, ...) and refusals followed: what a refused attempt to move
     // liquidity tokens leaves behind is met by the next seal
     let mut fr = mv;
     fr.adversarial = true;
     fr.pairs = false;
     fr.max_txs_per_block = 2;
-    let mut frs = sc("custom02-fees-liquidity-tokens-refusals-followed", NetID::Custom02, 65536, fr, if thorough { 7 } else { 6 });
+    let mut frs = sc("custom02-fees-liquidity-tokens-refusals-followed", NetID::Custom02, 65536, fr.clone(), if thorough { 7 } else { 6 });
     frs.follow_rejected = true;
     v.push(frs);
+    let mut fro = sc("custom02-fees-own-pool-tokens-refusals-followed", NetID::Custom02, 65536, fr, if thorough { 5 } else { 4 });
+    fro.follow_rejected = true;
+    fro.setup_labels = vec!["open", "mint(", "seal(None)", "open", "deposit[MEL/C", "seal(None)"];
+    v.push(fro);
     v.extend(genesis_scenarios(["custom02-genesis-sym-feepool-stake", "custom02-genesis-erg-fees-stakes", "custom02-genesis-huge-mel-feepool"], NetID::Custom02, &cfg_liquidity(), if thorough { 8 } else { 6 }));
     if thorough {
         v.push(sc("testnet-liquidity", NetID::Testnet, 0, cfg_liquidity(), 8));
